@@ -91,7 +91,10 @@ pub fn run(tier: &str) {
     cases.par_iter().for_each(|(shape, bsz, cont)| {
         let mut base: Option<Marks> = None;
         // the smallest file must hold several periods of the shape (a period is ~2.4 KB): at least 16 KiB
-        let sizes: Vec<usize> = sizes.iter().cloned().filter(|n| n * bsz >= 16384).collect();
+        // (the multiblock shape repeats every 50 messages, one of them 3.5 blocks long: its marks depend on where the long
+        // line falls relative to the block grid, which needs some eight periods to show its worst case)
+        let min_bytes = if *shape == "multiblock" { std::cmp::max(16384, 8 * (2200 + 4 * bsz)) } else { 16384 };
+        let sizes: Vec<usize> = sizes.iter().cloned().filter(|n| n * bsz >= min_bytes).collect();
         if sizes.len() < 3 {
             return;
         }
@@ -137,7 +140,9 @@ pub fn run(tier: &str) {
                     if let Some(b) = &base {
                         // the search itself touches about log2(size in blocks) blocks, whatever the smallest size of the series is
                         let lg = (nb as f64).log2().max(0.0).ceil() as usize;
-                        if marks.blocks_highest > b.blocks_highest + 4 + 2 * lg + if *cont == "plain" { aligned } else { 0 } {
+                        // each probe of the search reads one message; the longest line of the shape spans `ll` blocks
+                        let ll = data.split(|&c| c == b'\n').map(|l| l.len()).max().unwrap_or(0) / bsz + 2;
+                        if marks.blocks_highest > b.blocks_highest + 4 + ll * lg + if *cont == "plain" { aligned } else { 0 } {
                             rep.violation(
                                 json!({"symptom":"grows-windowed","mark":"blocks","shape":shape,"container":cont}),
                                 format!("{} {} bsz {} {} blocks, windowed: blocks high {} (baseline {} at {} blocks)", shape, cont, bsz, nb, marks.blocks_highest, b.blocks_highest, sizes[0]),
